@@ -21,6 +21,7 @@ import json
 import random
 import re
 import sys
+import time
 from concurrent.futures import ThreadPoolExecutor
 from pathlib import Path
 
@@ -496,7 +497,7 @@ def make_v_docs(tier, rng):
     muts = []
     for name, text in sorted(page_texts().items()):
         muts.append(text)
-        muts += mutations(rng, text, 4000 if thorough else 150, base, html)
+        muts += mutations(rng, text, 4000 if thorough else 100, base, html)
     docs["mutation"] = muts
     return docs
 
@@ -520,53 +521,66 @@ def spellings(doc):
     return prim, alts
 
 
-def run_g(o: Outcome, cfgs):
+def run_g(o: Outcome, cfgs, n_alt, stream):
+    t0 = time.time()
     with ThreadPoolExecutor(len(cfgs)) as ex:
         rs = list(ex.map(lambda c: tlc("Gen_Parser", c, workers=1, timeout=3000), cfgs))
-    cases = []
+    o.extra.setdefault("phase_seconds", {})["tlc_gen_parser"] = round(time.time() - t0, 1)
+    check_html_table(o, rs[0])
+    per_chunk, kinds = {}, {}
+    compared = skipped = ncases = 0
+    sample = None
     for cfg, r in zip(cfgs, rs):
         o.add_tlc(cfg + " (M: MachineOK on every sequence)", r)
-        cases += [c for c in r.cases if c["doc"]]
-    check_html_table(o, rs[0])
+    if stream:
+        groups = ((cfg.split("_")[-1].split(".")[0], r) for cfg, r in zip(cfgs, rs))   # one universe at a time (bounded memory)
+    else:
+        groups = [("all", rs)]
+    for cfg, r in groups:
+        t1 = time.time()
+        if stream:
+            cases = [c for c in r.cases if c["doc"]]
+            r.out = ""
+        else:
+            cases = [c for x in r for c in x.cases if c["doc"]]
+        ncases += len(cases)
+        for c in cases:
+            for ch in set(c["doc"]):
+                per_chunk[ch] = per_chunk.get(ch, 0) + 1
+        for c in cases[:: max(1, len(cases) // 5000)]:
+            for k in set(re.findall(r'"kind": "(\w+)"', json.dumps(c["tree"]))):
+                kinds[k] = kinds.get(k, 0) + 1
+        docs, prim_of = [], {}
+        for ci, c in enumerate(cases):
+            prim, alts = spellings(c["doc"])
+            prim_of[len(docs)] = ci
+            docs.append(prim)
+            docs += alts[:n_alt]
+        models = check_batch(o, docs, "G:" + cfg, want_model=frozenset(prim_of))
+        for did, ci in prim_of.items():
+            c = cases[ci]
+            real = models.get(did)
+            if real is None:
+                continue
+            if ADJACENCY_RE.search(" ".join(c["doc"]) + " "):
+                skipped += 1      # the spelling runs two chunks together in a way the tokenizer model does not cover
+                continue
+            compared += 1
+            if real == pt.model_text(c["tree"]) or ("treeA" in c and real == pt.model_text(c["treeA"])):
+                continue
+            o.note_drift({"chunks": c["doc"], "text": docs[did], "machine_tree": c["tree"], "real_tree": real})
+        if sample is None:
+            mid = cases[len(cases) // 2]
+            sample = {"chunks": mid["doc"], "text": spellings(mid["doc"])[0], "machine_tree": mid["tree"]}
+        o.extra["phase_seconds"]["G:" + cfg] = round(time.time() - t1, 1)
+        del cases, docs, models
     # (TLC's -coverage runs out of memory on this functional spec; the model has a single action
     # "append one chunk", so coverage is reported per chunk / per node kind instead)
-    per_chunk = {}
-    for c in cases:
-        for ch in set(c["doc"]):
-            per_chunk[ch] = per_chunk.get(ch, 0) + 1
-    o.extra["action_coverage"] = {"Next(append chunk)": sum(r.distinct for r in rs), "sequences_containing_chunk": per_chunk}
-    kinds = {}
-    for c in cases:
-        for k in set(re.findall(r'"kind": "(\w+)"', json.dumps(c["tree"]))):
-            kinds[k] = kinds.get(k, 0) + 1
-    o.extra["node_kinds_in_machine_trees"] = kinds
-    docs, prim_of = [], {}
-    for ci, c in enumerate(cases):
-        prim, alts = spellings(c["doc"])
-        prim_of[len(docs)] = ci
-        docs.append(prim)
-        docs += alts
-    models = check_batch(o, docs, "G", want_model=frozenset(prim_of))
-    drift_by = {}
-    skipped = 0
-    for did, ci in prim_of.items():
-        c = cases[ci]
-        real = models.get(did)
-        if real is None:
-            continue
-        if ADJACENCY_RE.search(" ".join(c["doc"]) + " "):
-            skipped += 1          # the spelling runs two chunks together in a way the tokenizer model does not cover
-            continue
-        if real == pt.model_text(c["tree"]) or ("treeA" in c and real == pt.model_text(c["treeA"])):
-            continue
-        o.note_drift({"chunks": c["doc"], "text": docs[did], "machine_tree": c["tree"], "real_tree": real})
-        key = " ".join(sorted(set(c["doc"])))
-        drift_by[key] = drift_by.get(key, 0) + 1
-    o.extra["machine_tree_agreement"] = {"compared": len(prim_of) - skipped, "differ": o.drift_count,
+    o.extra["action_coverage"] = {"Next(append chunk)": ncases, "sequences_containing_chunk": per_chunk}
+    o.extra["node_kinds_in_machine_trees(sampled)"] = kinds
+    o.extra["machine_tree_agreement"] = {"compared": compared, "differ": o.drift_count,
                                          "not_compared_spelling_adjacency": skipped}
-    mid = cases[len(cases) // 2]
-    o.sample({"chunks": mid["doc"], "text": spellings(mid["doc"])[0], "machine_tree": mid["tree"]})
-    return cases
+    o.sample(sample)
 
 
 def check_html_table(o: Outcome, r):
@@ -610,13 +624,16 @@ def run(tier: str) -> int:
         "trees larger than %d shape characters or deeper than %d levels are validated as one-level slices (each node with stubs for its child nodes)" % (SLICE_LIMIT, DEPTH_LIMIT),
     ]
     pre = "T" if tier == "thorough" else "Q"
-    run_g(o, [f"Gen_Parser_{pre}{u}.cfg" for u in ("core", "table", "block", "html", "inline", "pre")])
+    run_g(o, [f"Gen_Parser_{pre}{u}.cfg" for u in ("core", "table", "block", "html", "inline", "pre")],
+          n_alt=1 if tier == "thorough" else 2, stream=(tier == "thorough"))
     o.exhaustive = True
     run_demos(o)
     rng = random.Random(common.seed() * 15485863 + 1)
     docs = make_v_docs(tier, rng)
     for origin in ("ladder", "grammar", "mutation", "soup"):
+        t1 = time.time()
         check_batch(o, docs[origin], origin)
+        o.extra["phase_seconds"]["V:" + origin] = round(time.time() - t1, 1)
     o.sample({"soup": docs["soup"][0]})
     o.sample({"grammar": docs["grammar"][0]})
     return o.finish()
